@@ -3,6 +3,9 @@ package c05
 import (
 	"fmt"
 	"testing"
+	"time"
+
+	"github.com/aptpod/iscp-go/message"
 
 	"verif/harness/memnet"
 	"verif/harness/reconlib"
@@ -48,7 +51,7 @@ func TestC05CloseAcrossOutage(t *testing.T) {
 	}
 	meta := vrun.Meta{Property: "C05", Workload: "TestC05CloseAcrossOutage", Total: len(grid), Exhaustive: true,
 		Rule: "virtual time; complete grid: one upstream (reliable or partial, immediate flush, 5 chunks, close timeout 60 s), Close called right after the fifth write while the broker withholds the acks of every 2nd chunk (or none); one transport failure before/after the n-th chunk (1-5), ack (1-3), ping or pong (1-2) in 4 failure modes, redial instant or 3 s; the broker accepts the resume and acknowledges what it receives. " +
-			"Oracle: if the failure hit before Close had returned, a resume request under the original stream id reaches the new link, Close returns nil, no closed notification carries an error, for a reliable stream every accepted point reached the broker and the close request's totals equal what it received (a partial stream does not retransmit). non-trivial = the fault fired before Close returned; all cases distinct",
+			"Oracle: if the failure hit before Close had sent its close request, a resume request under the original stream id reaches the new link, Close returns nil, no closed notification carries an error, for a reliable stream every accepted point reached the broker and the close request's totals equal what it received (a partial stream does not retransmit). non-trivial = the fault fired before Close returned; all cases distinct",
 		Assumptions: []string{"withheld acks are released 35 virtual seconds after recovery at the latest (cooperative broker), well inside the close timeout"}}
 	vrun.Loop(t, meta, 0, func(c *vrun.Case) vrun.Result {
 		g := grid[c.Index]
@@ -87,6 +90,15 @@ func judgeCloseAcross(o *reconlib.Outcome) vrun.Result {
 		r.Note = "Close completed before the failure"
 		return r
 	}
+	if closeExchangeInterrupted(o) {
+		// the close request itself was on its way when the link died (sent before the client had a new connection):
+		// Close fails with a connection error and the stream is torn down locally - the statement lists open, metadata
+		// and call requests as the ones that are sent again, not close requests. Not judged.
+		r := vrun.Hold(sig, false)
+		r.Note = "the failure hit the close exchange itself"
+		r.Stat("close_exchange_interrupted", 1)
+		return r
+	}
 	if len(u.State.Resumes) == 0 {
 		return vrun.Violation("an upstream whose Close was waiting for acknowledgements when the transport died was never resumed", "draining-upstream-not-resumed", wit)
 	}
@@ -107,4 +119,28 @@ func judgeCloseAcross(o *reconlib.Outcome) vrun.Result {
 	r.Stat("close_took_virtual_ms", int64(u.EarlyCloseSecs*1000))
 	r.Stat("resume_requests", int64(len(u.State.Resumes)))
 	return r
+}
+
+// closeExchangeInterrupted: an UpstreamCloseRequest was written to the first link before the second link's connect
+// request went out.
+func closeExchangeInterrupted(o *reconlib.Outcome) bool {
+	var closeAt, nextConnectAt time.Time
+	for _, li := range o.LinkInfos {
+		for _, r := range li.Log {
+			if r.Dir != memnet.C2S {
+				continue
+			}
+			switch r.Msg.(type) {
+			case *message.UpstreamCloseRequest:
+				if li.ID == 1 && closeAt.IsZero() {
+					closeAt = r.VT
+				}
+			case *message.ConnectRequest:
+				if li.ID == 2 && nextConnectAt.IsZero() {
+					nextConnectAt = r.VT
+				}
+			}
+		}
+	}
+	return !closeAt.IsZero() && (nextConnectAt.IsZero() || !closeAt.After(nextConnectAt))
 }
